@@ -65,60 +65,86 @@ func pathErr(op, name string, err error) error {
 
 const maxHops = 40
 
-// walk resolves name. If followLast is false the final component is not
-// dereferenced. It returns the node (nil if missing), its parent, the final
+// walk resolves name the way the kernel does: component by component, a symbolic link is
+// expanded in place and ".." is taken relative to the directory physically reached (so
+// "link/.." is the parent of the link's target, not of the link). Not modelled: the kernel's
+// special errors for a path whose last component is "." or ".." (EINVAL/ENOTEMPTY on removal,
+// ENOENT for "missing/."); such a component is simply followed. If followLast is false the final
+// component is not dereferenced. It returns the node (nil if missing), its parent, the final
 // name and the symlink-free path of the parent directory.
 func (v *FS) walk(op, name string, followLast bool) (n *node, parent *node, base string, realParent string, err error) {
 	if name == "" {
 		return nil, nil, "", "", pathErr(op, name, syscall.ENOENT)
 	}
-	full := v.abs(name)
-	hops := 0
-	type res struct {
-		n, parent  *node
-		base       string
-		real       string // symlink-free path of n (or of where n would be)
-		realParent string
+	full := name
+	if !strings.HasPrefix(full, "/") {
+		full = v.Cwd + "/" + full
 	}
-	var rec func(p string, follow bool) (res, error)
-	rec = func(p string, follow bool) (res, error) {
-		if p == "/" {
-			return res{n: v.root, base: "/", real: "/", realParent: "/"}, nil
+	split := func(p string) []string {
+		var out []string
+		for _, c := range strings.Split(p, "/") {
+			if c != "" && c != "." {
+				out = append(out, c)
+			}
 		}
-		dir, b := path.Split(p)
-		d, err := rec(path.Clean(dir), true)
-		if err != nil {
-			return res{}, err
+		return out
+	}
+	type ent struct {
+		n    *node
+		name string
+	}
+	stack := []ent{{v.root, ""}}
+	realOf := func(st []ent) string {
+		p := "/"
+		for _, e := range st[1:] {
+			p = path.Join(p, e.name)
 		}
-		if d.n == nil {
-			return res{}, pathErr(op, name, syscall.ENOENT)
+		return p
+	}
+	comps := split(full)
+	hops := 0
+	for len(comps) > 0 {
+		c := comps[0]
+		comps = comps[1:]
+		last := len(comps) == 0
+		cur := stack[len(stack)-1].n
+		if !cur.mode.IsDir() {
+			return nil, nil, "", "", pathErr(op, name, syscall.ENOTDIR)
 		}
-		if !d.n.mode.IsDir() {
-			return res{}, pathErr(op, name, syscall.ENOTDIR)
+		if c == ".." {
+			if len(stack) > 1 {
+				stack = stack[:len(stack)-1]
+			}
+			continue
 		}
-		real := path.Join(d.real, b)
-		c := d.n.children[b]
-		if c == nil {
-			return res{n: nil, parent: d.n, base: b, real: real, realParent: d.real}, nil
+		child := cur.children[c]
+		if child == nil {
+			if last {
+				return nil, cur, c, realOf(stack), nil
+			}
+			return nil, nil, "", "", pathErr(op, name, syscall.ENOENT)
 		}
-		if c.mode&fs.ModeSymlink != 0 && follow {
+		if child.mode&fs.ModeSymlink != 0 && (!last || followLast) {
 			hops++
 			if hops > maxHops {
-				return res{}, pathErr(op, name, syscall.ELOOP)
+				return nil, nil, "", "", pathErr(op, name, syscall.ELOOP)
 			}
-			t := c.target
-			if !strings.HasPrefix(t, "/") {
-				t = path.Join(d.real, t)
+			if child.target == "" {
+				return nil, nil, "", "", pathErr(op, name, syscall.ENOENT)
 			}
-			return rec(path.Clean(t), true)
+			if strings.HasPrefix(child.target, "/") {
+				stack = stack[:1]
+			}
+			comps = append(split(child.target), comps...)
+			continue
 		}
-		return res{n: c, parent: d.n, base: b, real: real, realParent: d.real}, nil
+		stack = append(stack, ent{child, c})
 	}
-	r, err := rec(full, followLast)
-	if err != nil {
-		return nil, nil, "", "", err
+	top := stack[len(stack)-1]
+	if len(stack) == 1 {
+		return v.root, nil, "/", "/", nil
 	}
-	return r.n, r.parent, r.base, r.realParent, nil
+	return top.n, stack[len(stack)-2].n, top.name, realOf(stack[:len(stack)-1]), nil
 }
 
 func (v *FS) note(op, name, realParent, base string) {
@@ -160,7 +186,8 @@ func (v *FS) Mkdir(name string, perm fs.FileMode) error {
 	return nil
 }
 
-// MkdirAll creates a directory and any missing parents.
+// MkdirAll creates a directory and any missing parents (same algorithm as os.MkdirAll: the
+// parent is the name with its last element cut off, not cleaned).
 func (v *FS) MkdirAll(name string, perm fs.FileMode) error {
 	n, _, _, _, err := v.walk("mkdir", name, true)
 	if err == nil && n != nil {
@@ -169,19 +196,23 @@ func (v *FS) MkdirAll(name string, perm fs.FileMode) error {
 		}
 		return pathErr("mkdir", name, syscall.ENOTDIR)
 	}
-	full := v.abs(name)
-	if full == "" {
-		return pathErr("mkdir", name, syscall.ENOENT)
+	i := len(name)
+	for i > 0 && name[i-1] == '/' {
+		i--
 	}
-	if full != "/" {
-		if err := v.MkdirAll(path.Dir(full), perm); err != nil {
+	j := i
+	for j > 0 && name[j-1] != '/' {
+		j--
+	}
+	if j > 1 {
+		if err := v.MkdirAll(name[:j-1], perm); err != nil {
 			return err
 		}
 	}
-	err = v.Mkdir(full, perm)
+	err = v.Mkdir(name, perm)
 	if err != nil {
-		// it may have been a symlink to a directory, or created concurrently
-		if n, _, _, _, e2 := v.walk("mkdir", full, true); e2 == nil && n != nil && n.mode.IsDir() {
+		// it may have been created concurrently, or be reached under another name (d/..)
+		if n, _, _, _, e2 := v.walk("mkdir", name, false); e2 == nil && n != nil && n.mode.IsDir() {
 			return nil
 		}
 		return err
